@@ -372,6 +372,9 @@ func (e *Exec) binop(op token.Token, t types.Type, x, y Value) Value {
 			}
 			if signed {
 				if op == token.QUO {
+					if r := e.cancelScaledDiv(xv, yv); r != nil {
+						return r
+					}
 					return e.tt.Bin(OpSDiv, xv, yv)
 				}
 				return e.tt.Bin(OpSRem, xv, yv)
@@ -944,3 +947,38 @@ func (e *Exec) mapHasKeyIdentical(m *Map, key Value) int {
 }
 
 var _ = math.MaxInt64
+
+
+// cancelScaledDiv rewrites (a*c1)/c2 to a/(c2/c1) when c1 | c2 and the path condition proves that
+// a*c1 cannot overflow int64 (one solver query; on anything but "unsat" the division is kept as is).
+// Time arithmetic (seconds*1e9 / interval) is otherwise out of reach of every installed back end.
+func (e *Exec) cancelScaledDiv(x, y *Term) *Term {
+	if e.summaryDepth > 0 || !y.IsConst() || x.op != OpMul || x.sort.W != 64 {
+		return nil
+	}
+	a, c := x.args[0], x.args[1]
+	if !c.IsConst() {
+		a, c = c, a
+	}
+	if !c.IsConst() || a.IsConst() {
+		return nil
+	}
+	c1, c2 := int64(c.c), int64(y.c)
+	if c1 <= 1 || c2 <= 0 || c2%c1 != 0 {
+		return nil
+	}
+	const maxI = int64(^uint64(0) >> 1)
+	lo, hi := e.tt.BV(64, uint64(-(maxI / c1))), e.tt.BV(64, uint64(maxI/c1))
+	inRange := e.tt.And(e.tt.Cmp(OpSLe, lo, a), e.tt.Cmp(OpSLe, a, hi))
+	if a.hard {
+		return nil
+	}
+	if r, _ := e.checkSat(e.tt.Not(inRange), nil); r != "unsat" {
+		return nil
+	}
+	e.stubUsed("checked rewrite (a*c1)/c2 -> a/(c2/c1) under a proved no-overflow side condition")
+	if c2 == c1 {
+		return a
+	}
+	return e.tt.Bin(OpSDiv, a, e.tt.BV(64, uint64(c2/c1)))
+}
